@@ -24,6 +24,22 @@ corresponding `py_*` function of coq/Num/PyNum.v, which carries CPython's dynami
     prelude of Gen/IndexGen.v (allow_sets; sets are dicts with PNone values)
   Methods are turned into functions beforehand by methods.py (self.X reads -> parameters,
   self.X writes -> returned state).
+  * `return e` inside a (single, non-nested) `for` loop: the loop state carries an extra
+    `option pyval` component; once it is `Some r` the remaining iterations are skipped (like a
+    raised exception) and the function returns r after the loop (loop_return)
+  * `set(e)`, `a.intersection(b)`, `isinstance(x, set)` (allow_sets; py_set_of / py_set_inter /
+    py_isinstance_set of the prelude of Gen/FilterPairGen.v).  Sets are insertion-ordered lists
+    in the model, so a set built this way may only flow into len(..), .intersection(..),
+    isinstance(.., set) or a name used only in those positions (check_set_order_unobserved):
+    its iteration order is never observable
+  * `TABLE[k](a, b)` for a configured table of binary functions (fun_tables) in expression
+    position; `M.f(x)` for a configured module function (ext_calls: pd.isnull -> py_isnull)
+
+  * `[e for x in it]` (allow_listcomp; one generator, no condition, x used nowhere else) ->
+    py_listcomp of the prelude of Gen/WrapperGen.v; a callee's function-valued parameter (sim_fn of
+    set_sim_join_rows) is passed on from the caller's function parameter of the same name (spec entry
+    ('fun', name, arity)); the free name `py_nan` (np.NaN, rewritten by wrappers.py) -> py_nan
+  The public wrappers (DataFrames as values of Model/Frame.v) are prepared by wrappers.py.
 
 Anything else raises Unsupported, and the caller treats that as a broken tie (never silence).
 """
@@ -70,7 +86,7 @@ CMPOPS = {ast.Eq: 'py_eq', ast.NotEq: 'py_ne', ast.Lt: 'py_lt', ast.LtE: 'py_le'
           ast.Gt: 'py_gt', ast.GtE: 'py_ge', ast.In: 'py_in', ast.NotIn: 'py_not_in'}
 BUILTIN1 = {'int': 'py_int', 'float': 'py_float', 'ceil': 'py_ceil', 'floor': 'py_floor',
             'sqrt': 'py_sqrt', 'len': 'py_len', 'list': 'py_list', 'str': 'py_str'}
-GLOBAL_CONSTS = {'maxsize': 'py_maxsize'}
+GLOBAL_CONSTS = {'maxsize': 'py_maxsize', 'py_nan': 'py_nan'}   # py_nan: np.NaN (wrappers.py rewrites the attribute)
 
 
 def assigned_names(stmts):
@@ -129,8 +145,15 @@ class FunTranslator:
     def __init__(self, fn, known_funs=(), attr_params=None, method_params=None,
                  known_sigs=None, attr_allow=None, allow_sets=False,
                  fun_params=None, fun_tables=None, obj_locals=None, fresh_funs=(),
-                 strict_escape=False):
+                 strict_escape=False, ext_calls=None, rename_calls=None, allow_listcomp=False):
         self.fn = fn
+        self.allow_listcomp = allow_listcomp
+        # ext_calls: (module alias, function) -> Coq primitive of one argument (pd.isnull ->
+        # py_isnull); the caller has checked the import.  rename_calls: python function name ->
+        # name of its generated definition (overlap -> simfunctions_overlap)
+        self.ext_calls = dict(ext_calls or {})
+        self.rename_calls = dict(rename_calls or {})
+        self.loop_ret = None
         # function-valued names (JoinGen): fun_params are PARAMETERS of the generated definition
         # (name -> arity, type pyval -> ... -> pyval); fun_tables maps a global dict of functions
         # (COMP_OP_MAP) to the generated lookup `tbl : pyval -> (pyval -> pyval -> pyval) + pyval`;
@@ -210,7 +233,7 @@ class FunTranslator:
                 if n.keywords or len(n.args) != len(pyparams):
                     raise Unsupported('call of %s: positional arguments only' % n.func.id)
                 for sp in spec:
-                    if sp[0] == 'plain':
+                    if sp[0] in ('plain', 'fun'):
                         continue
                     a = n.args[pyparams.index(sp[1])]
                     if sp[0] == 'attr' and isinstance(a, ast.Name) and a.id in self.obj_locals and \
@@ -327,6 +350,27 @@ class FunTranslator:
             raise Unsupported('attribute ' + ast.dump(n))
         if isinstance(n, ast.Call):
             return self.call(n)
+        if isinstance(n, ast.ListComp):
+            # [e for x in it]: one generator, no condition; x is a name that occurs nowhere else in
+            # the function (a comprehension has its own scope in Python 3).  py_listcomp (prelude of
+            # Gen/WrapperGen.v) evaluates left to right and yields the first exception.
+            if not self.allow_listcomp or len(n.generators) != 1:
+                raise Unsupported('list comprehension')
+            g = n.generators[0]
+            if g.ifs or g.is_async or not isinstance(g.target, ast.Name):
+                raise Unsupported('list comprehension shape')
+            x = g.target.id
+            inside = set(id(m_) for m_ in ast.walk(n))
+            for m_ in ast.walk(self.fn):
+                if isinstance(m_, ast.Name) and m_.id == x and id(m_) not in inside:
+                    raise Unsupported('comprehension variable %s is used elsewhere' % x)
+            if x in self.params or x in self.bound:
+                raise Unsupported('comprehension variable %s shadows a name' % x)
+            it = self.expr(g.iter)
+            self.bound.add(x)
+            body = self.expr(n.elt)
+            self.bound.discard(x)
+            return '(py_listcomp (fun %s => %s) %s)' % (self.v(x), body, it)
         raise Unsupported('expr ' + type(n).__name__)
 
     def call(self, n):
@@ -347,6 +391,11 @@ class FunTranslator:
                 return '(py_items %s)' % self.expr(args[0])
             if f == 'set' and not args and self.allow_sets:
                 return '(PDict [])'
+            if f == 'set' and len(args) == 1 and self.allow_sets:
+                return '(py_set_of %s)' % self.expr(args[0])
+            if f == 'isinstance' and len(args) == 2 and self.allow_sets and \
+                    isinstance(args[1], ast.Name) and args[1].id == 'set' and 'set' not in self.bound:
+                return '(py_isinstance_set %s)' % self.expr(args[0])
             if f in BUILTIN1 and len(args) == 1:
                 return '(%s %s)' % (BUILTIN1[f], self.expr(args[0]))
             if f == 'round' and len(args) == 2:
@@ -371,6 +420,13 @@ class FunTranslator:
                 pyparams, spec = self.known_sigs[f]
                 out = []
                 for sp in spec:
+                    if sp[0] == 'fun':
+                        # the callee's function-valued parameter (sim_fn): the caller must have a
+                        # function parameter of the same name and arity, which is passed on
+                        if self.fun_params.get(sp[1]) != sp[2]:
+                            raise Unsupported('%s needs the function parameter %s' % (f, sp[1]))
+                        out.append(self.v(sp[1]))
+                        continue
                     a = args[pyparams.index(sp[1])]
                     if sp[0] == 'plain':
                         out.append(self.expr(a))
@@ -382,16 +438,32 @@ class FunTranslator:
                         out.append(self.v(a.id + '_' + sp[2]))
                 return '(%s %s)' % (f, ' '.join(out))
             if f in self.known_funs:
-                return '(%s %s)' % (f, ' '.join(self.expr(a) for a in args))
+                return '(%s %s)' % (self.rename_calls.get(f, f), ' '.join(self.expr(a) for a in args))
             raise Unsupported('call ' + f)
+        if isinstance(n.func, ast.Subscript) and isinstance(n.func.value, ast.Name) and \
+                n.func.value.id in self.fun_tables and n.func.value.id not in self.bound:
+            # TABLE[k](a, b): the lookup is evaluated first, then the arguments, then the call
+            # (arguments are required to be exception-free names/constants so the order is moot)
+            if len(args) != 2 or not all(self.is_safe(a) for a in args):
+                raise Unsupported('function table call shape')
+            return '(match %s %s with inr x_ => x_ | inl f_ => f_ %s %s end)' % (
+                self.fun_tables[n.func.value.id], self.expr(n.func.slice),
+                self.expr(args[0]), self.expr(args[1]))
         if isinstance(n.func, ast.Attribute):
             m = n.func.attr
+            if isinstance(n.func.value, ast.Name) and (n.func.value.id, m) in self.ext_calls and \
+                    n.func.value.id not in self.bound:
+                if len(args) != 1:
+                    raise Unsupported('arity of %s.%s' % (n.func.value.id, m))
+                return '(%s %s)' % (self.ext_calls[(n.func.value.id, m)], self.expr(args[0]))
             if isinstance(n.func.value, ast.Name) and (n.func.value.id, m) in self.method_params:
                 return '(%s %s)' % (self.v(n.func.value.id + '_' + m),
                                     ' '.join(self.expr(a) for a in args))
             if isinstance(n.func.value, ast.Name) and n.func.value.id in self.set_names:
                 raise Unsupported('method %s of a set' % m)
             obj = self.expr(n.func.value)
+            if m == 'intersection' and len(args) == 1 and self.allow_sets:
+                return '(py_set_inter %s %s)' % (obj, self.expr(args[0]))
             if m == 'get' and len(args) == 1:
                 return '(py_dict_get2 %s %s)' % (obj, self.expr(args[0]))
             if m == 'get' and len(args) == 2:
@@ -424,7 +496,11 @@ class FunTranslator:
             return cont()
         if isinstance(s, ast.Return):
             if in_loop:
-                raise Unsupported('return inside loop')
+                if self.loop_ret is None:
+                    raise Unsupported('return inside loop')
+                out = self.loop_ret(self.expr(s.value) if s.value is not None else 'PNone')
+                self.bound = saved
+                return out
             out = self.expr(s.value) if s.value is not None else 'PNone'
             self.bound = saved
             return out
@@ -548,6 +624,32 @@ class FunTranslator:
             pat = self.pattern_of(names)
             inner_saved = set(self.bound)
             self.bound |= set(names)
+            rets = [n for b in s.body for n in ast.walk(b) if isinstance(n, ast.Return)]
+            if rets:
+                # early return: only from a loop that is not nested in / does not contain another
+                # loop with a return, at function level (the value after the loop IS the result)
+                if in_loop is not None or self.loop_ret is not None:
+                    raise Unsupported('return inside a nested loop')
+                for b in s.body:
+                    for n in ast.walk(b):
+                        if isinstance(n, ast.For) and any(isinstance(m_, ast.Return) for m_ in ast.walk(n)):
+                            raise Unsupported('return inside a nested loop')
+                fail_in = lambda e: '(%s, (None, %s))' % (e, self.tuple_of(names))
+                ok_in = lambda: '(PNone, (None, %s))' % self.tuple_of(names)
+                self.loop_ret = lambda e: '(bindx %s (fun x_ => %s) (fun r_ => (PNone, (Some r_, %s))))' % (
+                    e, fail_in('x_'), self.tuple_of(names))
+                body = self.assign(s.target, 'x_it',
+                                   lambda: self.block(s.body, ok_in, fail_in, ok_in), fail_in)
+                self.loop_ret = None
+                self.bound = inner_saved | set(names)
+                r = cont()
+                self.bound = saved
+                return ('(let \'(e_, (ro_, %s)) := py_for %s (fun s_ => is_exc (fst s_) || '
+                        'match fst (snd s_) with Some _ => true | None => false end)%%bool '
+                        '(fun x_ => (x_, (None, %s)))\n'
+                        '  (fun s_ x_it => let \'(_, (_, %s)) := s_ in %s) (PNone, (None, %s)) in\n'
+                        ' bindx e_ (fun e_ => %s) (fun _ => match ro_ with Some r_ => r_ | None => %s end))'
+                        % (pat, it, tup0, pat, body, tup0, fail('e_'), r))
             fail_in = lambda e: '(%s, %s)' % (e, self.tuple_of(names))
             ok_in = lambda: '(PNone, %s)' % self.tuple_of(names)
             body = self.assign(s.target, 'x_it',
@@ -839,8 +941,66 @@ class FunTranslator:
             return esc
         block(self.fn.body, set())
 
+    def check_set_order_unobserved(self):
+        """Sets made by set(e) / .intersection are insertion-ordered lists in the model; CPython's
+        iteration order differs.  So such a value may only be consumed by len(..), by
+        .intersection(..) (as receiver or argument), by isinstance(.., set), by `not` / a truth
+        test, or be bound to a name all of whose reads are of that kind."""
+        parent = {}
+        for n in ast.walk(self.fn):
+            for c in ast.iter_child_nodes(n):
+                parent[id(c)] = n
+
+        def is_setval(n):
+            if isinstance(n, ast.Call) and isinstance(n.func, ast.Name) and n.func.id == 'set' and n.args:
+                return True
+            return isinstance(n, ast.Call) and isinstance(n.func, ast.Attribute) and \
+                n.func.attr == 'intersection'
+
+        def consumed_ok(n):
+            """is the occurrence n (an expression) in an order-blind position?"""
+            p_ = parent.get(id(n))
+            if isinstance(p_, ast.Call) and isinstance(p_.func, ast.Name) and n in p_.args:
+                if p_.func.id in ('len', 'set') and len(p_.args) == 1:
+                    return True       # set(<set>) is again a set value and is checked itself
+                if p_.func.id == 'isinstance' and len(p_.args) == 2 and p_.args[0] is n and \
+                        isinstance(p_.args[1], ast.Name) and p_.args[1].id == 'set':
+                    return True
+                return False
+            if isinstance(p_, ast.Call) and isinstance(p_.func, ast.Attribute) and \
+                    p_.func.attr == 'intersection' and n in p_.args:
+                return True
+            if isinstance(p_, ast.Attribute) and p_.attr == 'intersection' and p_.value is n and \
+                    isinstance(parent.get(id(p_)), ast.Call) and parent[id(p_)].func is p_:
+                return True
+            if isinstance(p_, ast.UnaryOp) and isinstance(p_.op, ast.Not):
+                return True
+            if isinstance(p_, (ast.If, ast.IfExp)) and p_.test is n:
+                return True
+            return False
+        set_vars = set()
+        for n in ast.walk(self.fn):
+            if is_setval(n) and not consumed_ok(n):
+                p_ = parent.get(id(n))
+                if isinstance(p_, ast.Assign) and p_.value is n and len(p_.targets) == 1 and \
+                        isinstance(p_.targets[0], ast.Name):
+                    set_vars.add(p_.targets[0].id)
+                elif isinstance(p_, ast.Return) and self.allow_set_return:
+                    pass
+                else:
+                    raise Unsupported('a set value flows into an order-sensitive position')
+        for n in ast.walk(self.fn):
+            if isinstance(n, ast.Name) and n.id in set_vars and isinstance(n.ctx, ast.Load) and \
+                    not consumed_ok(n):
+                raise Unsupported('set-valued name %s is used in an order-sensitive position' % n.id)
+
+    allow_set_return = False
+    allow_listcomp = False
+
     def translate(self):
         self.check_no_aliased_mutation()
+        if self.allow_sets:
+            self.check_set_order_unobserved()
         if self.strict_escape:
             self.check_no_mutation_after_escape()
         for f_ in self.fun_params:
@@ -867,6 +1027,7 @@ class FunTranslator:
                 self.spec.append(('plain', p))
         self.spec += [('attr', p, a) for (p, a) in self.attr_params]
         self.spec += [('method', p, m) for (p, m) in self.method_params]
+        self.spec += [('fun', f_, ar) for f_, ar in self.fun_params.items()]
         sig = ' '.join('(%s : %s)' % pt for pt in plist)
         return 'Definition %s %s : pyval :=\n%s.\n' % (self.fn.name, sig, body), [p for p, _ in plist]
 
